@@ -52,6 +52,16 @@ PLAIN_TYPES = ['int', 'integer', 'varchar', 'varchar(255)', 'decimal(10,2)', 'de
 QUOTED_TYPES = ['character varying', 'double precision', 'my type(3)', 'timestamp with time zone']
 EXPRS = ['now()', 'id * 2', "lower(name)", 'a + b', "'x' || name", 'uuid_generate_v4()', '(a)', 'x', '1',
          'coalesce(a, 0)', 'getdate()', "date_trunc('day', ts)", '"q" + 1', 'a {b}', 'é']
+EXPR_ALPHA = "abcXYZ019_ +-*/%()[]{}<>=!.,:;'\"\\|&^~?@#$éß日"
+EXPR_SPECIAL = ["replace(body, E'\\n', ' ')", "regexp_replace(x, '\\s+', ' ')", "'\\t'", 'a\\b', "E'\\r\\n'", '\\', "'it''s'", '"q"', '{x}', '(a) + (b)',
+                '(price + 1) * (qty - 1)', '((x))', ' lead', 'trail ', 'a  b', "'\\0'", '\\f', 'x -- c', '/* c */ 1', 'a // b', '[1,2]', "'''"]
+
+
+def exprs(features=frozenset()):
+    free = st.text(alphabet=EXPR_ALPHA, min_size=1, max_size=16)
+    return st.one_of(st.sampled_from(EXPRS), st.sampled_from(EXPRS), st.sampled_from(EXPR_SPECIAL), free)
+
+
 COLORS = ['#fff', '#AbC', '#123456', '#aBcDeF', '#000', '#FFFFFF', '#09f']
 
 
@@ -137,7 +147,7 @@ def defaults(features):
     strs = line_text(features, 1).filter(lambda s: s.lower() not in ('true', 'false', 'null'))
     opts = [ints.map(lambda v: ('int', v)), floats.map(lambda v: ('float', v)),
             st.just(('bool', True)), st.just(('null', None)),
-            strs.map(lambda v: ('str', v)), st.sampled_from(EXPRS).map(lambda v: ('expr', v)),
+            strs.map(lambda v: ('str', v)), exprs(features).map(lambda v: ('expr', v)),
             st.integers(10 ** 18, 10 ** 30).map(lambda v: ('int', v))]
     if _has(features, 'falsy_default'):
         opts += [st.sampled_from([('int', 0), ('float', 0.0), ('bool', False), ('str', '')])] * 2
@@ -224,7 +234,7 @@ def schemas(draw, features: FrozenSet[str] = BASE_FEATURES, sizes: Sizes = QUICK
             subjects = [('col', c) for c in subj_cols]
             if draw(st.integers(0, 3)) == 0:
                 pos = draw(st.integers(0, len(subjects)))
-                subjects.insert(pos, ('expr', draw(st.sampled_from(EXPRS))))
+                subjects.insert(pos, ('expr', draw(exprs(F))))
                 if draw(st.booleans()) and len(subjects) > 1:
                     subjects = [s for s in subjects if s[0] == 'expr'] or subjects
             t.indexes.append(AIndex(
